@@ -84,8 +84,39 @@ def memo_findings(fn_node: ast.AST) -> list:
             for c in n.comparators:
                 reads.add(norm(c))
     out = []
+
+    def reads_cont(e, cont):
+        for x in ast.walk(e):
+            if isinstance(x, ast.Subscript) and isinstance(x.ctx, ast.Load) and norm(x.value) == cont:
+                return True
+            if isinstance(x, ast.Call) and isinstance(x.func, ast.Attribute) and x.func.attr in ("get", "setdefault", "pop") and norm(x.func.value) == cont:
+                return True
+        return False
+
+    def answers_from(cont):
+        """the function returns (part of) what it read from the container: that is what makes the container a memo and not an
+        accumulator the function merely maintains"""
+        fed = set()
+        changed = True
+        while changed:
+            changed = False
+            for nm, vals in asg.items():
+                if nm in fed:
+                    continue
+                for v in vals:
+                    if reads_cont(v, cont) or any(isinstance(x, ast.Name) and x.id in fed for x in ast.walk(v)):
+                        fed.add(nm)
+                        changed = True
+                        break
+        for r in ast.walk(fn_node):
+            if isinstance(r, ast.Return) and r.value is not None:
+                if reads_cont(r.value, cont) or any(isinstance(x, ast.Name) and x.id in fed for x in ast.walk(r.value)):
+                    return True
+        return False
     for cont, key, val, stmt in stores:
         if cont not in reads:
+            continue
+        if not answers_from(cont):
             continue
         # only containers that outlive the call: module globals / attributes, not locals built here
         root = cont.split(".")[0].split("[")[0]
@@ -135,3 +166,160 @@ def control_ok() -> bool:
     a = memo_findings(fns["lossy"])
     b = memo_findings(fns["exact"])
     return [x[2] for x in a] == ["dt"] and b == []
+
+
+# ------------------------------------------------------------------------------------------------------------------
+# single-slot memos: `c = getattr(H, "_x", None); if c is not None: return c; ...; H._x = value`
+
+def _attr_read(e: ast.AST):
+    """(holder text, attribute name) when `e` reads one attribute: H.name or getattr(H, "name"[, default])."""
+    if isinstance(e, ast.Attribute) and isinstance(e.ctx, ast.Load):
+        return norm(e.value), e.attr
+    if isinstance(e, ast.Call) and isinstance(e.func, ast.Name) and e.func.id == "getattr" and len(e.args) >= 2 \
+            and isinstance(e.args[1], ast.Constant) and isinstance(e.args[1].value, str):
+        return norm(e.args[0]), e.args[1].value
+    return None
+
+
+def _self_field_deps(e: ast.AST, asg: dict, seen=None) -> set:
+    """`self.<field>` reads the expression depends on (through local names)."""
+    seen = seen if seen is not None else set()
+    out = set()
+    for n in ast.walk(e):
+        if isinstance(n, ast.Attribute) and isinstance(n.value, ast.Name) and n.value.id == "self" and isinstance(n.ctx, ast.Load):
+            out.add(n.attr)
+        elif isinstance(n, ast.Name) and isinstance(n.ctx, ast.Load) and n.id in asg and n.id not in seen:
+            seen.add(n.id)
+            for v in asg[n.id]:
+                out |= _self_field_deps(v, asg, seen)
+    return out
+
+
+def _grown_from(name: str, fn_node: ast.AST) -> list:
+    """expressions appended / added / stored into the local container `name` (its content)."""
+    out = []
+    for n in ast.walk(fn_node):
+        if isinstance(n, ast.Call) and isinstance(n.func, ast.Attribute) and isinstance(n.func.value, ast.Name) and n.func.value.id == name \
+                and n.func.attr in ("append", "add", "extend", "update", "insert", "setdefault"):
+            out += list(n.args)
+        elif isinstance(n, ast.Assign) and any(isinstance(t, ast.Subscript) and isinstance(t.value, ast.Name) and t.value.id == name for t in n.targets):
+            out.append(n.value)
+    return out
+
+
+def slot_memo_findings(fn_node: ast.AST, deps_hook=None) -> list:
+    """[(slot text, lost input, store stmt)]: the function answers from one attribute slot it also fills, and the stored value
+    was computed from an input (a parameter; or, when the slot lives on another object than self, a field of self) that the
+    validity test of the slot does not compare."""
+    params = set(_params(fn_node))
+    asg = _assigned(fn_node)
+    # locals bound to a slot read
+    bound = {}
+    for name, vals in asg.items():
+        for v in vals:
+            r = _attr_read(v)
+            if r and r[1].startswith("_"):
+                bound.setdefault(name, set()).add(r)
+    stores = []
+    for n in ast.walk(fn_node):
+        if isinstance(n, (ast.Assign, ast.AnnAssign)):
+            tgs = n.targets if isinstance(n, ast.Assign) else [n.target]
+            for t in tgs:
+                if isinstance(t, ast.Attribute) and n.value is not None:
+                    stores.append(((norm(t.value), t.attr), n.value, n))
+        elif isinstance(n, ast.Call) and isinstance(n.func, ast.Name) and n.func.id == "setattr" and len(n.args) == 3 \
+                and isinstance(n.args[1], ast.Constant) and isinstance(n.args[1].value, str):
+            stores.append(((norm(n.args[0]), n.args[1].value), n.args[2], n))
+    out = []
+    for slot, val, stmt in stores:
+        holders = [nm for nm, rs in bound.items() if slot in rs]
+        direct_ret = False
+        # the function answers from the slot: a return of the bound local (or a part of it), or of the attribute itself
+        answers = []
+        for r in ast.walk(fn_node):
+            if isinstance(r, ast.Return) and r.value is not None:
+                names = {x.id for x in ast.walk(r.value) if isinstance(x, ast.Name)}
+                if names & set(holders):
+                    answers.append(r)
+                elif any(_attr_read(x) == slot for x in ast.walk(r.value)):
+                    answers.append(r)
+                    direct_ret = True
+        if not answers:
+            continue
+        # a memo tests whether the slot is filled (a setter that returns the previous value does not)
+        tested = False
+        for c in ast.walk(fn_node):
+            if isinstance(c, (ast.If, ast.IfExp, ast.While)):
+                for x in ast.walk(c.test):
+                    if (isinstance(x, ast.Name) and x.id in holders) or _attr_read(x) == slot:
+                        tested = True
+        if not tested:
+            continue
+        # inputs the stored value was computed from
+        vals = [val]
+        for x in ast.walk(val):
+            if isinstance(x, ast.Name) and x.id in asg:
+                vals += _grown_from(x.id, fn_node)
+        need = set()
+        fields = set()
+        for v in vals:
+            need |= _param_deps(v, params, asg)
+            fields |= _self_field_deps(v, asg)
+            for x in ast.walk(v):
+                if isinstance(x, ast.Name) and x.id in asg:
+                    for g in _grown_from(x.id, fn_node):
+                        need |= _param_deps(g, params, asg)
+                        fields |= _self_field_deps(g, asg)
+        if deps_hook is not None:
+            # the engine's dependence closure (data and control) of the stored value at the store
+            need |= {p_ for p_ in deps_hook(val) if p_ in params}
+        if slot[0] != "self" and slot[0].startswith("self."):
+            own = slot[0].split(".")[1]
+            need |= {f"self.{f}" for f in fields if f != own and not f.startswith("_")}
+        # inputs the validity test compares with the slot content
+        keyed = set()
+        for c in ast.walk(fn_node):
+            if isinstance(c, ast.Compare):
+                sides = [c.left] + list(c.comparators)
+                touches = any(isinstance(x, ast.Name) and x.id in holders for s_ in sides for x in ast.walk(s_)) or \
+                    any(_attr_read(x) == slot for s_ in sides for x in ast.walk(s_))
+                if touches:
+                    for s_ in sides:
+                        keyed |= _param_deps(s_, params, asg)
+                        keyed |= {f"self.{f}" for f in _self_field_deps(s_, asg)}
+        for p in sorted(need - keyed):
+            out.append((f"{slot[0]}.{slot[1]}", p, stmt))
+    return out
+
+
+_SLOT_CONTROL = '''
+class K:
+    def lossy(self, sc):
+        c = getattr(self, "_memo", None)
+        if c is not None:
+            return c
+        v = [t for t in self.tasks if t.get("x", sc)]
+        self._memo = v
+        return v
+    def exact(self, sc):
+        c = getattr(self, "_memo", None)
+        if c is not None and c[0] == sc:
+            return c[1]
+        v = [t for t in self.tasks if t.get("x", sc)]
+        self._memo = (sc, v)
+        return v
+    def onshared(self):
+        c = getattr(self.property, "_chain", None)
+        if c is None:
+            c = []
+            c.append(self.property.get("limits", self.scenarioIdx))
+            self.property._chain = c
+        return c
+'''
+
+
+def slot_control_ok() -> bool:
+    m = ast.parse(_SLOT_CONTROL)
+    fns = {n.name: n for n in m.body[0].body if isinstance(n, ast.FunctionDef)}
+    return [x[1] for x in slot_memo_findings(fns["lossy"])] == ["sc"] and slot_memo_findings(fns["exact"]) == [] \
+        and [x[1] for x in slot_memo_findings(fns["onshared"])] == ["self.scenarioIdx"]
